@@ -98,8 +98,6 @@ func NewWordList(list []string) (*WordList, error) {
 			if unique[cap] {
 				if cap != w { // w is "polish"
 					delete(unique, cap) // delete won't change what is in range
-				} else {
-					unCapable++
 				}
 			}
 		}
@@ -109,7 +107,12 @@ func NewWordList(list []string) (*WordList, error) {
 	var ourWords []string
 	for w := range unique {
 		ourWords = append(ourWords, w)
-
+		// Count the words that capitalization doesn't change only now, among the
+		// words we keep. Counting during the previous pass would make the result
+		// depend on whether "Polish" was visited before "polish" removed it.
+		if strings.Title(w) == w {
+			unCapable++
+		}
 	}
 	ourWords = verifCanonical(ourWords)
 
